@@ -435,6 +435,20 @@ def cases(tier, shard, nshards):
                     continue
                 prog = "xx_ := %s; rr_ := (%s); [rr_, %s]" % (S, src, same)
                 yield Case(prog, {"fn": name, "kind": kind, "n": len(xs), "exp": exp if exp == RAISE else list(exp), "held": True})
+    # long inputs (beyond the small-input paths of sorting / grouping / buffering code): one fixed pattern per kind and length,
+    # with equal-but-not-identical neighbours (1 / 1.0) so that stability and first occurrence stay visible
+    for kind in ("list", "vector", "bytes", "string", "wstream", "range", "srange"):
+        for n_ in ((21, 33) if tier == "quick" else (17, 21, 33, 64, 100)):
+            cnt += 1
+            if cnt % nshards != shard:
+                continue
+            alpha = KINDS[kind]
+            xs = list(range(1, n_ + 1)) if kind == "range" else list(range(1, 2 * n_, 2)) if kind == "srange" else [alpha[(i * i + 3 * i) % len(alpha)] for i in range(n_)]
+            S = src_of(kind, xs)
+            for (name, src, exp) in forms(kind, xs, S):
+                if exp is None or name in ("^^",) and n_ > 33:
+                    continue
+                yield Case(src, {"fn": name, "kind": kind, "n": len(xs), "exp": exp if exp == RAISE else list(exp), "long": 1}, opts={"fuel": 2000000, "step_ms": 20000, "compact": True, "cap": 5000})
     smax = 4 if tier == "quick" else 5
     for L in range(0, smax + 1):
         for t in itertools.product(STRING_ALPHA, repeat=L):
